@@ -33,7 +33,7 @@ def bounds(tier):
     return {
         "d": [1, 2, 3],
         "shapes": "d=1: 1..4; d=2: all of [1..4]^2; d=3: "
-        + ("all of [1..3]^3 + (2,3,4),(4,2,3)" if tier == "thorough" else "every multiset of extents from [1..3] (sorted) + every axis order of (1,2,3) + (2,3,4),(4,2,3)"),
+        + ("all of [1..3]^3 + (2,3,4),(4,2,3)" if tier == "thorough" else "all of [1..3]^3 + (2,3,4),(4,2,3); all (k,p) on every multiset of extents and every axis order of pairwise distinct extents, (k,p) in {(0,0),(1,1)} on the remaining axis orders"),
         "k": "d=1: 0; d=2: 0..3; d=3: 0..2" + (" (+3 thorough)" if tier == "thorough" else ""),
         "p": [0, 1],
         "flags": "all 2^d",
@@ -53,11 +53,14 @@ def cases(tier, seed):
             for p in (0, 1):
                 out.append({"d": 2, "shape": list(sh), "k": k, "p": p, "pairs": "all"})
     shapes3 = list(it.product(range(1, 4), repeat=3)) + [(2, 3, 4), (4, 2, 3)]
-    if tier == "quick":  # every multiset of extents, every axis order of the pairwise distinct ones
-        shapes3 = [s for s in shapes3 if tuple(sorted(s)) == s or len(set(s)) == 3]
     for sh in shapes3:
+        # quick: every multiset of extents and every axis order of the pairwise distinct ones get all (k,p); the other
+        # axis orders (e.g. (a,b,a)) get (k,p) in {(0,0),(1,1)}
+        rep = tier == "thorough" or tuple(sorted(sh)) == sh or len(set(sh)) == 3
         for k in range(4 if tier == "thorough" else 3):
             for p in (0, 1):
+                if not rep and (k, p) not in ((0, 0), (1, 1)):
+                    continue
                 out.append({"d": 3, "shape": list(sh), "k": k, "p": p, "pairs": "all" if tier == "thorough" else "gens"})
     out.append({"d": 0, "operators": True})
     for c in out:
@@ -109,6 +112,10 @@ def run_case(case, seed):
     A1 = ident(shape)[(slice(None, None, -1),) * len(shape)] ** 2  # second integer image
     A1 = np.ascontiguousarray(A1) % 97
     flagsets = list(it.product([True, False], repeat=D))
+    if not (k == 0 and p == 0) and D == 3:
+        # flag transport does not depend on (k,p): the full 2^d sweep runs in the (k=0,p=0) case of every shape,
+        # the other (k,p) cases of a d=3 shape use the all-true and one mixed setting
+        flagsets = [flagsets[0], tuple(i % 2 == 0 for i in range(D))]
     v = []
     evals = 0
     moved = False
